@@ -77,7 +77,7 @@ theorem newNode_get? {f : Forest} (v : Value) {x : Nat} (hl : f.isLive x = true)
     (f.newNode v).1.get? x = f.get? x := by
   obtain ⟨t, hg⟩ := get?_of_isLive hl
   show findList? x (f.roots ++ [HTree.node f.next v []]) = _
-  rw [findList?_append]
+  rw [fa_findList?_append]
   unfold get? at hg ⊢
   rw [hg]
 
@@ -95,11 +95,11 @@ theorem placeLast_get? (f : Forest) (p : Nat) (t : HTree) :
   rw [← mapAtList_eq_map]
   exact findList?_mapAtList_self p _ (insertsLast t).handle f.roots
 
-theorem removeConsolidate_none_left (f : Forest) (n : Option Nat) :
+theorem fa_removeConsolidate_none_left (f : Forest) (n : Option Nat) :
     f.removeConsolidate none n = (f, false) := by
   unfold removeConsolidate; split <;> rfl
 
-theorem addConsolidate_none (f : Forest) (n : Nat) : f.addConsolidate n none none = (f, false) := by
+theorem fa_addConsolidate_none (f : Forest) (n : Nat) : f.addConsolidate n none none = (f, false) := by
   rw [addConsolidate_eq_old, selfPrev_none, selfNext_none]
   exact addConsolidateOld_none_none f n
 
